@@ -50,7 +50,9 @@ def render_reports(defs):
         cols = ", ".join((c + (' { title "%s" }' % d["titles"][c] if c in d["titles"] else "")) for c in d["cols"])
         L = ['taskreport %s "%s" {' % (d["id"], d["id"]), "  formats %s" % d["formats"], "  columns %s" % cols]
         if d["timeformat"]:
-            L.append('  timeformat "%s"' % d["timeformat"])
+            # every third report writes its format in single quotes (the same string)
+            q = "'" if (len(d["timeformat"]) + len(d["cols"])) % 3 == 0 and "'" not in d["timeformat"] else '"'
+            L.append("  timeformat %s%s%s" % (q, d["timeformat"], q))
         if d["leaf"] is not None:
             L.append("  leaftasksonly %s" % ("true" if d["leaf"] else "false"))
         L.append("}")
